@@ -119,7 +119,7 @@ pub fn profile_for(prop: &str, thorough: bool) -> Profile {
         drop_unsynced: false,
         huge: matches!(prop, "C03" | "C04" | "C08" | "C10" | "C12" | "C13"),
         huge_burst: prop == "C08",
-        burst_gets_only: matches!(prop, "C12" | "C13" | "C14"),
+        burst_gets_only: matches!(prop, "C12" | "C13"),
     };
     match prop {
         "C01" => {
@@ -218,8 +218,8 @@ pub fn profile_for(prop: &str, thorough: bool) -> Profile {
             p.max_ops = if thorough { 200 } else { 70 };
         }
         "C14" => {
-            p.w.burst = 3;
-            p.burst_sizes = vec![700, 1400];
+            p.w.burst = 4;
+            p.burst_sizes = vec![130, 300, 700, 1400];
             p.w.hot_gets = 2;
             p.w.get = 40;
             p.w.warm_insert = 8;
